@@ -402,12 +402,14 @@ FAMILIES = {
     },
     "thorough": {
         "wide": fam(4, 3, False, EV_FULL, WHATS, True),
-        "ids": fam(4, 3, True, EV_FULL, WHATS, True, ["raw", "ask1"]),
+        "ids": fam(4, 2, True, EV_FULL, WHATS, True, ["raw", "ask1"]),
+        "ids3": fam(3, 3, True, EV_FULL, WHATS, True, ["raw", "ask1"]),
         "deep": fam(7, 2, False, EV_CORE, EV_CORE, False, ["raw", "ask1"]),
     },
     "replay": {
         "wide": fam(99, 9, True, EV_FULL, WHATS, True),
         "ids": fam(99, 9, True, EV_FULL, WHATS, True),
+        "ids3": fam(99, 9, True, EV_FULL, WHATS, True),
         "deep": fam(99, 9, True, EV_FULL, WHATS, True),
     },
 }
